@@ -921,6 +921,38 @@ def _req_worker_safe(spec):
         return dict(spec=spec, status='oracle-linalg-error', msg=str(e)[:100])
 
 
+KNOWN_BLOCK = 'C13-edof-rises-within-one-tensor-block'
+
+
+def _block_witness(ctx, st):
+    """the deterministic witness of the recorded known finding KNOWN_BLOCK: marginal smoothing parameters of ONE tensor term
+    1e15 apart; reported as the known finding when it reproduces, silent otherwise"""
+    import contextlib
+    import io
+    from pygam import LinearGAM, te
+    rs = np.random.RandomState(20260930)
+    n = 200
+    X = np.c_[rs.uniform(0, 1, n), rs.uniform(-1, 1, n)]
+    y = np.sin(5 * X[:, 0]) * np.cos(3 * X[:, 1]) + 0.3 * rs.randn(n)
+    ed = {}
+    try:
+        for L in (1e8, 1e12):
+            with contextlib.redirect_stdout(io.StringIO()):
+                g = LinearGAM(te(0, 1, n_splines=[6, 5], lam=[L, 1e-3]), tol=1e-10).fit(X, y)
+            ed[L] = float(g.statistics_['edof'])
+    except ValueError:
+        ctx.count('within-block witness', 'ValueError')
+        return
+    ctx.case(st, dict(witness=KNOWN_BLOCK), nontrivial=True, sample=dict(edof=ed))
+    if ed[1e12] > ed[1e8] + 1e-3 * (1 + ed[1e8]):
+        ctx.count('known finding', KNOWN_BLOCK)
+        ctx.fail(st, dict(known=KNOWN_BLOCK, kind='within-block'), dict(minimal_reproduction='LinearGAM(te(0, 1, n_splines=[6, 5], lam=[L, 1e-3])), L = 1e8 vs 1e12, RandomState(20260930) data'),
+                 observed='edof %.6f at L = 1e8 -> %.6f at L = 1e12' % (ed[1e8], ed[1e12]), expected='edof non-increasing in lam (exact arithmetic: C13.edof_antitone)',
+                 oracle='two real LinearGAM fits; the marginal lams are 1e15 apart inside one penalty block')
+    else:
+        ctx.count('within-block witness', 'not reproduced')
+
+
 def run_extreme(ctx):
     """one smoothing parameter far beyond the others (1e12 … 1e16 next to ordinary values): in exact arithmetic edof is
     non-increasing along the path (theorem C13.edof_antitone) and the heavily penalised term has reached its limit long
@@ -1165,6 +1197,7 @@ def run(ctx):
     ctx.partial.append('the limit lam -> infinity is proved in quantitative form (squeeze, limit_distance), not as a topological limit; IEEE rounding is covered by the tolerances only')
     ctx.assumptions.append('existence of a simultaneous diagonalisation of a positive definite and a PSD matrix (C13 edof monotonicity only)')
     run_extreme(ctx)
+    _block_witness(ctx, 'path.extreme-ratio')
     run_requested(ctx)
 
 
